@@ -61,6 +61,7 @@ MORE_EVENTS = [
     ("dec", 3, {"zero_phase": False, "ftype": "fir"}),
     ("dec", 4, {"ftype": "fir", "n": 20}),
     ("det", {"type": "constant", "bp": "thirds"}),
+    ("det", {"bp": "sample3000"}),        # legal on the full record, rejected by scipy (and so by the setup) once it is shorter
     ("fil", "highpass", 0.05, 4),
     ("fil", "bandpass", (0.1, 0.4), 2),
     ("fil", "bandstop", (0.2, 0.3), 3),
@@ -132,6 +133,8 @@ class Model:
                 kw["bp"] = n // 2
             elif kw.get("bp") == "thirds":
                 kw["bp"] = [n // 3, 2 * n // 3]
+            elif kw.get("bp") == "sample3000":
+                kw["bp"] = 3000
             return kw
         return None
 
